@@ -248,7 +248,11 @@ func RunProgram(w *world.World, policy string, size int, prog []Op, dur time.Dur
 	}
 	for inc := range distinct {
 		if inc == 0 {
-			fail("c16-monitor-lost-session", "no [newSession] debug line seen for a session that was handed out")
+			// the monitor identifies session incarnations through the SDK's [newSession] debug line; without it the
+			// teardown count of this session cannot be decided (inconclusive, not a violation)
+			if sig == "" {
+				sig, detail = "INCONCLUSIVE:c16-monitor-lost-session", "no [newSession] debug line seen for a session that was handed out: teardown counts cannot be attributed"
+			}
 			continue
 		}
 		if n := mon.Closes[inc]; n != 1 {
